@@ -59,7 +59,9 @@ func (s *State) setComp(name string, t *Term) {
 
 func hCompName(t types.Type, leaf int) string { return fmt.Sprintf("H|%s|%d", typeKey(t), leaf) }
 func eCompName(t types.Type, leaf int) string { return fmt.Sprintf("E|%s|%d", typeKey(t), leaf) }
-func bCompName(t types.Type, leaf int) string { return fmt.Sprintf("B|%s|%d", types.TypeString(t, nil), leaf) }
+func bCompName(t types.Type, leaf int) string {
+	return fmt.Sprintf("B|%s|%d", types.TypeString(t, nil), leaf)
+}
 
 // ---------------------------------------------------------------- lvalues
 
@@ -138,7 +140,7 @@ func writePath(root Value, path []Step, nv Value) Value {
 		for i, l := range a.Leaves {
 			out[i] = Store(l, s.Index, upd[i])
 		}
-		return VArr{out}
+		return VArr{out, a.N}
 	}
 	st := root.(VStruct)
 	fs := append([]Value{}, st.F...)
@@ -171,36 +173,37 @@ type Obligation struct {
 // ---------------------------------------------------------------- executor
 
 type Exec struct {
-	V           *Verifier
-	assumptions []*Term
-	obls        []*Obligation
-	nameCount   map[string]int
-	curFn       *ssa.Function // top-level function being verified
-	curContract *Contract
-	strict      bool // strict slicing (high <= len)
-	safetyProps []string
-	writeLog    map[string]bool // heap components written (for havoc fail-safe)
-	frames      []*Frame
+	V             *Verifier
+	assumptions   []*Term
+	obls          []*Obligation
+	nameCount     map[string]int
+	curFn         *ssa.Function // top-level function being verified
+	curContract   *Contract
+	strict        bool // strict slicing (high <= len)
+	safetyProps   []string
+	writeLog      map[string]bool // heap components written (for havoc fail-safe)
+	frames        []*Frame
 	lastSpecState *State
+	curInstr      ssa.Instruction
 }
 
 type Frame struct {
-	fn       *ssa.Function
-	vals     map[ssa.Value]Value
-	params   []Value // entry values
-	depth    int
-	spec     bool // evaluating specification code: no obligations
-	pcBase   *Term
-	contract *Contract
-	entry    *State
-	top      bool
-	results  []retInfo
+	fn        *ssa.Function
+	vals      map[ssa.Value]Value
+	params    []Value // entry values
+	depth     int
+	spec      bool // evaluating specification code: no obligations
+	pcBase    *Term
+	contract  *Contract
+	entry     *State
+	top       bool
+	results   []retInfo
 	edgeConds map[*ssa.BasicBlock]map[*ssa.BasicBlock]*Term
-	freeVars []Value
-	label    string // prefix for obligation labels when inlined
-	loopRecs map[*loopInfo]*loopRec
-	curBlock *ssa.BasicBlock
-	asserted map[*Clause]bool
+	freeVars  []Value
+	label     string // prefix for obligation labels when inlined
+	loopRecs  map[*loopInfo]*loopRec
+	curBlock  *ssa.BasicBlock
+	asserted  map[*Clause]bool
 	unrolling map[*ssa.BasicBlock]*[]incoming
 }
 
@@ -577,6 +580,7 @@ func (ex *Exec) execBlocks(fr *Frame, rt *bodyRT, blocks []*ssa.BasicBlock, in m
 				alive = false
 			default:
 				ex.checkAsserts(fr, st, pc, instr)
+				ex.curInstr = instr
 				pc = ex.step(fr, st, pc, instr)
 				if pc.IsFalse() {
 					alive = false
